@@ -260,6 +260,7 @@ fn request_of(verb: &str, rqn: usize, dir: &str, n: usize) -> (Request, Kind, bo
             (rt(RequestType::LoadState(path)), Kind::Load, false, n)
         }
         "loadmissing" => (rt(RequestType::LoadState(format!("{dir}/nosuchfile"))), Kind::Local, false, 0),
+        "reloadbad" => (rt(RequestType::ReloadConfiguration(format!("{dir}/nosuchconfig.toml"))), Kind::Local, false, 0),
         other => panic!("unknown verb {other}"),
     }
 }
